@@ -25,6 +25,15 @@ CLAIMS = {
               "hand model run against the real functions on adversarial branch lists (stream S05)."),
         note=TB + " Hand-modelled, not verified: node collection order, the point query of the spatial index (assumed to return bit-identical ends), WKT-key injectivity.",
         ref="DESIGN.md section 6 C05", technique="Lean 4 theorems over regenerated decision functions + hand model with differential correspondence"),
+    "C07": dict(
+        text=("Proof (Lean 4) over a hand model of crop_to_target_areas + dissolve_multi_part_traces, generic in attribute type, geometry type, clip function "
+              "and length filter: the output is, as a multiset of rows, exactly every long clip piece of every input row with that row's attributes "
+              "(C07_crop_eq_expected) -- hence rows_from_input, all_pieces_present, k pieces -> k rows, additive measures (length) conserved, and the clip law "
+              "(inside, on source) carries to every output row. Tie: stream S07 runs the real function on frames with attribute columns and arbitrary index "
+              "labels x box/concave/holed/multipolygon/multi-row areas against the exact clipLine of the Lean model (coverage, attributes, total length per row, "
+              "single-part output, caller frames compared with deep copies)."),
+        note=TB + " gpd.clip (GEOS overlay) is the parameter `clip`; that it returns the pieces of trace-intersect-areas (ClipLaw) is only sampled by S07 against exact rational clipping. Row order of gpd.clip is unspecified and not compared. F1, F16, F20 were genuine defects here and are repaired (fix: commits).",
+        ref="DESIGN.md section 6 C07", technique="Lean 4 multiset theorem over a parametric crop model + exact clipping oracle run against the implementation"),
     "C08": dict(
         text=("Proof (Lean 4): determine_topology_parameters is re-translated from /repo on every run and proved equal, entry by entry, to the published "
               "Sanderson-Nixon / Mauldon definitions (hand-written Spec.NetIn.param) for ALL rational counts, length lists, areas, pi, sqrt and both values of "
